@@ -26,7 +26,7 @@ theorem hash_range (refAbs : Bool) (h n : Int) (hn : 0 < n) :
   unfold hashChoice
   cases refAbs
   · simp only [Bool.false_eq_true, ↓reduceIte]
-    have := @tmod_abs_bounds (hashAsI32 h) n hn
+    have := @tmod_abs_bounds (wrap32 h) n hn
     split <;> omega
   · simp only [↓reduceIte]
     exact tmod_bounds_nonneg (by omega) hn
